@@ -90,7 +90,9 @@ def explore(run, tier):
         pos = c07.positions(data, cdict, codec, hexbm)
         hdr = 36 if hexbm else 20
         alpha = c07.alphabet_bytes(codec) + ['1'.encode(codec)[0], '9'.encode(codec)[0], '3'.encode(codec)[0]]
-        for cls in ('prefix', 'pdslen'):
+        for cls in ('prefix', 'pdslen', 'content'):
+            # 'content': first and last byte of every element's value — signs / blanks / high bytes in numeric, date and
+            # text elements: accepted exactly when the value is decodable and convertible
             offs = sorted(set(pos[cls]))
             if not thorough and len(offs) > 9:
                 offs = sorted(rng.sample(offs, 9))
